@@ -491,7 +491,12 @@ def _build(spec: dict):
         blocks.append(fl.RuleBlock(name=b["name"], enabled=b["enabled"], conjunction=build_norm(b["conjunction"]),
                                    disjunction=build_norm(b["disjunction"]), implication=build_norm(b["implication"]),
                                    activation=build_activation(b["activation"]), rules=rules))
-    return fl.Engine(name=spec["name"], input_variables=ins, output_variables=outs, rule_blocks=blocks)
+    engine = fl.Engine(name=spec["name"], input_variables=ins, output_variables=outs, rule_blocks=blocks)
+    for blk, b in zip(engine.rule_blocks, spec["blocks"]):
+        for rule, r in zip(blk.rules, b["rules"]):
+            if r.get("unloaded"):
+                rule.unload()  # a rule the user took out with Rule.unload(): skipped until the next restart / reload
+    return engine
 
 
 # ---------------------------------------------------------------------------- input rows
